@@ -83,8 +83,8 @@ class AdvSched(fakeos.Sched):
         return running[self.g.choose("x%d" % self.k, len(running))]
 
     def status_for(self, kernel, proc):
-        bad = self.g.flag("bad%d" % proc.pid)
-        rc = (10 + proc.pid - kernel.FIRST_PID) if bad else 0
+        bad = self.g.flag("bad%d" % proc.vpid)
+        rc = (10 + proc.vpid - kernel.FIRST_PID) if bad else 0
         if proc.name is None:
             rc = 7 if bad else 0
         self.rc[proc.pid] = rc
